@@ -289,6 +289,27 @@ func (vc *VC) resolveType(env *SpecEnv, name string) types.Type {
 		}
 		return nil
 	}
+	// generic instantiation: Name[Arg1,Arg2]
+	if k := strings.Index(name, "["); k > 0 && strings.HasSuffix(name, "]") {
+		gen := vc.resolveType(env, name[:k])
+		if gen == nil {
+			return nil
+		}
+		var targs []types.Type
+		for _, a := range splitTop(name[k+1:len(name)-1], ',') {
+			at := vc.resolveType(env, a)
+			if at == nil {
+				return nil
+			}
+			targs = append(targs, at)
+		}
+		inst, err := types.Instantiate(nil, gen, targs, false)
+		if err != nil {
+			vc.specErr("cannot instantiate %s: %v", name, err)
+			return nil
+		}
+		return inst
+	}
 	var scope *types.Scope
 	id := name
 	if k := strings.Index(name, "."); k >= 0 {
